@@ -22,21 +22,21 @@ import (
 // temporary, tentative, IPv4), and one address listed with two different flag sets.
 func c14Pool() []system.IP {
 	return []system.IP{
-		verifw.IP("fd00::1/64", ""),                         // 0 ULA, not stable
-		verifw.IP("fd00::2/64", "f"),                        // 1 ULA, valid forever
-		verifw.IP("2001:db8::1/64", ""),                     // 2 GUA, not stable
-		verifw.IP("2001:db8::2/64", "m"),                    // 3 GUA, manage temporary addresses
-		verifw.IP("2001:db8::211:22ff:fe33:4455/64", ""),    // 4 GUA, EUI-64 pattern
-		verifw.IP("fe80::1/64", "s"),                        // 5 link-local, stable privacy
-		verifw.IP("fe80::2/64", ""),                         // 6 link-local, not stable
-		verifw.IP("fd00::/64", "fd"),                        // 7 best rank but deprecated
-		verifw.IP("fd00::3/64", "ft"),                       // 8 temporary
-		verifw.IP("2001:db8::/64", "fn"),                    // 9 tentative
-		verifw.IP("::1/128", ""),                            // 10 loopback: none of the classes
-		verifw.IP("192.0.2.1/24", "f"),                      // 11 IPv4
-		verifw.IP("fd00::1/64", "f"),                        // 12 the address of 0 with another flag set
-		verifw.IP("2001:db8::3/128", "s"),                   // 13 GUA, stable privacy, host length
-		verifw.IP("ff02::1/128", ""),                        // 14 multicast: none of the classes, above ::1
+		verifw.IP("fd00::1/64", ""),                      // 0 ULA, not stable
+		verifw.IP("fd00::2/64", "f"),                     // 1 ULA, valid forever
+		verifw.IP("2001:db8::1/64", ""),                  // 2 GUA, not stable
+		verifw.IP("2001:db8::2/64", "m"),                 // 3 GUA, manage temporary addresses
+		verifw.IP("2001:db8::211:22ff:fe33:4455/64", ""), // 4 GUA, EUI-64 pattern
+		verifw.IP("fe80::1/64", "s"),                     // 5 link-local, stable privacy
+		verifw.IP("fe80::2/64", ""),                      // 6 link-local, not stable
+		verifw.IP("fd00::/64", "fd"),                     // 7 best rank but deprecated
+		verifw.IP("fd00::3/64", "ft"),                    // 8 temporary
+		verifw.IP("2001:db8::/64", "fn"),                 // 9 tentative
+		verifw.IP("::1/128", ""),                         // 10 loopback: none of the classes
+		verifw.IP("192.0.2.1/24", "f"),                   // 11 IPv4
+		verifw.IP("fd00::1/64", "f"),                     // 12 the address of 0 with another flag set
+		verifw.IP("2001:db8::3/128", "s"),                // 13 GUA, stable privacy, host length
+		verifw.IP("ff02::1/128", ""),                     // 14 multicast: none of the classes, above ::1
 	}
 }
 
